@@ -696,5 +696,51 @@ def rule_ended_stream_is_silent(ctx):
 
 
 
+
+def rule_nothing_before_the_request_frame(ctx):
+    """C08.m  Every stream an endpoint opens begins with its request frame.  request_stream() / request_channel() hand
+    the application a Publisher that is also the Subscription; the request frame goes out in subscribe().  An
+    application that gives such an object up without subscribing has only cancel() to release the id the call
+    registered - and cancel() (or request(n)) in the constructor's state must then not write CANCEL / REQUEST_N for an
+    id the peer has never seen.  Typestate: from the state the constructor leaves, the public request() and cancel() of
+    the stream and channel requesters queue no frame."""
+    rep = ctx.report
+    m = model(ctx)
+    n = 0
+    for h in m.handlers:
+        inter, role = m.role(h)
+        if role != 'requester' or inter not in ('stream', 'channel'):
+            continue
+        pre0 = init_bools(ctx, m, h)
+        sub = [e for e in m.entries(h) if e.kind == 'method' and e.func.node.name == 'subscribe']
+        if not sub:
+            raise AnalysisError('C08.m: %s has no subscribe()' % h.name)
+        # the state subscribe() leaves: if it differs from the constructor's, "before the request frame" is pre0;
+        # if it does not, the handler has no way to tell the two apart
+        changed = set()
+        for p in m.run(sub[0], pre0):
+            if p.outcome == 'return':
+                post = m.post_state(p)
+                changed |= {k for k in post if post[k] != pre0.get(k)}
+        for en in m.entries(h):
+            if en.kind != 'method' or en.func.node.name not in ('request', 'cancel'):
+                continue
+            n += 1
+            out = None
+            for p in m.run(en, pre0):
+                em = m.emitted(p)
+                if em and out is None:
+                    out = em[0][0]
+            rep.add('C08.m', '%s.%s / before subscribe() it writes nothing' % (h.name, en.func.node.name), en.func,
+                    out is None,
+                    'no frame is queued in the constructor\'s state' if out is None else
+                    '%s() on a requester that was never subscribed queues a %s: the peer receives it for a stream id '
+                    'that no request frame has opened%s' % (
+                        en.func.node.name, out,
+                        '' if changed else ' (subscribe() leaves no mark the handler could consult)'))
+    rep.require('C08.m', 'request()/cancel() of stream and channel requesters', n, 4)
+
+
+
 RULES = [('C08.a', rule_a), ('C08.b', rule_b), ('C08.c', rule_c), ('C08.d', rule_d), ('C08.e', rule_e),
-         ('C08.f', rule_f), ('C08.g', rule_g), ('C05.a', rule_order), ('C13.a+C16.b', rule_h), ('C09.a+C20.d', rule_i), ('C08.i', rule_j), ('C07.e', rule_genpub), ('C01.a', rule_dispatch_by_own_id), ('C01.h', rule_adapter_delegations), ('C08.j', rule_channel_complete_flag), ('C11.c', rule_dead_handlers_silenced), ('C08.k', rule_setup_is_the_clients), ('C01.f', rule_completing_element_is_flagged), ('C08.l', rule_ended_stream_is_silent)]
+         ('C08.f', rule_f), ('C08.g', rule_g), ('C05.a', rule_order), ('C13.a+C16.b', rule_h), ('C09.a+C20.d', rule_i), ('C08.i', rule_j), ('C07.e', rule_genpub), ('C01.a', rule_dispatch_by_own_id), ('C01.h', rule_adapter_delegations), ('C08.j', rule_channel_complete_flag), ('C11.c', rule_dead_handlers_silenced), ('C08.k', rule_setup_is_the_clients), ('C01.f', rule_completing_element_is_flagged), ('C08.l', rule_ended_stream_is_silent), ('C08.m', rule_nothing_before_the_request_frame)]
